@@ -169,6 +169,7 @@ func checkLimitTransient(idx, N int, sp spec, buf, k int, withData bool) {
 	if sp.L == 0 {
 		return
 	}
+	failingClose(s, idx+buf+k)
 	lr := streams.LimitReadCloser(flakyCloser{&flaky{inner: closableSrc{s}, k: k, withData: withData}}, int64(N))
 	want := s.data[:e]
 	var wantErr error = io.EOF
